@@ -114,6 +114,22 @@ def gen_program(rnd, pid, small=False):
         threads[0] += [['sched', c, x, b], ['sched', c, y, b + rnd.choice([128, 256, 512])]]
         tasks[x]['script'][0] = dict(do=[['tempo', c, *rnd.choice([[1, 2], [1, 1]])]],
                                      res=rnd.choice([['ret', 256], ['raise'], ['stop'], ['none'], ['other']]))
+    if rnd.random() < 0.08 and not small:
+        # motif: a watchdog that is pushed back over and over while other tasks wait (many cancelled entries in the
+        # clock's queue), with a later-due task scheduled before an earlier-due one
+        c = rnd.choice(['sys', 'sys', 'app'])
+        far, mid, near = rnd.choice([(2048, 1536, 1024), (1408, 1024, 640), (3072, 2048, 512)])
+        for nm in ('wb', 'ww', 'wa'):
+            tasks[nm] = dict(kind='fn', script=[dict(do=[], res=rnd.choice([['none'], ['ret', 256]])), dict(do=[], res=['none'])])
+            tclock[nm] = c
+        th = rnd.choice(threads)
+        # the watchdog is the earliest entry (its cancelled entry stays at the head of the queue), the later-due task is
+        # scheduled before the earlier-due one
+        th += [['sched', c, 'wb', far], ['sched', c, 'ww', near], ['sched', c, 'wa', mid]]
+        for k in range(rnd.randint(17, 26)):
+            if rnd.random() < 0.15:
+                th.append(['sleep', rnd.choice([1, 2])])
+            th.append(['sched', c, 'ww', far + 256 + 8 * k])
     oscn = 0
     for i, th in enumerate(threads):
         if i > 0 and rnd.random() < 0.3:        # the OSC receive thread: incoming datagrams are dispatched via SystemClock
